@@ -74,7 +74,7 @@ var owned = map[string][]string{
 	"C05": {"fn-calls", "racers", "chain", "panic"},
 	"C06": {"ledger-", "panic"},
 	"C07": {"range-", "panic"},
-	"C08": {"size", "panic"},
+	"C08": {"size", "size-sweep-incomplete", "panic"},
 	"C13": {"deadlock", "livelock", "panic"},
 	"C16": {"read-", "lin", "panic"},
 	"C14": {"race", "payload", "panic"},
